@@ -12,176 +12,107 @@ Definition show_fres (r : fres) : string :=
   end.
 Definition check (rs : list rune) : string := digest (show_fres (format_res rs)).
 Definition full (rs : list rune) : string := show_fres (format_res rs).
-Eval vm_compute in ("<<<M1354>>>" ++ check (runes_of_ascii "// top
-options // c0
-{
-    // c1
-StringPrefixLenType = u16 ; // c5
-ArrayPrefixLenType
-    // c6
-= // c7a
-  // c7b
-u32 ;
-    // c9
-FixedStringPadFromLeft
-    // c10
-= // c11
-true // c12a
-  // c12b
-; FixedStringPadChar = // c15a
-  // c15b
-'0' // c16a
-  // c16b
-;
-    // c17
-} packet Cancel // c20
-{ // c21a
-  // c21b
-} // c22a
-  // c22b
-packet
-    // c23
-Party { }
-    // c26
-packet // c27a
-  // c27b
-Logon // c28
-{ } packet
-    // c31
-Ack // c32
-{ // c33a
-  // c33b
-} // c34
-packet // c35a
-  // c35b
-Logout // c36
-{ // c37a
-  // c37b
-repeat // c38
-InSym87
-    // c39
-{ // c40a
-  // c40b
-InClordid94 // c41
-{
-    // c42
-string // c43a
-  // c43b
-clOrdID ,
-    // c45
-} ,
-    // c47
-string // c48a
-  // c48b
-Px // c49
-, i16 // c51a
-  // c51b
-Qty
-    // c52
-, // c53
-repeat
-    // c54
-InCount71 { repeat // c57a
-  // c57b
-Cancel
-    // c58
-,
-    // c59
-uint16 // c60
-Tail
-    // c61
-,
-    // c62
-char[
-    // c63
-2 // c64a
-  // c64b
-] // c65
-x , // c67a
-  // c67b
-repeat
-    // c68
-string // c69
-Ref // c70a
-  // c70b
-, // c71
-} , Cancel , // c75a
-  // c75b
-}
-    // c76
-, }
-    // c78
-root // c79
-packet // c80a
-  // c80b
-Order // c81a
-  // c81b
-{ // c82
-repeat // c83a
-  // c83b
-string
-    // c84
-tag7
-    // c85
-, @leftPad // c87
-( // c88a
-  // c88b
-' ' ) // c90
-char[ 3 ]
-    // c93
-Px
-    // c94
-, // c95a
-  // c95b
-u8
-    // c96
-Qty ,
-    // c98
-match Qty as // c101a
-  // c101b
-Body { [ // c104a
-  // c104b
-28 // c105a
-  // c105b
-, // c106
-62 // c107
-] // c108
-:
-    // c109
+Eval vm_compute in ("<<<M266>>>" ++ check (runes_of_ascii "packet metadata { repeat f64 // " ++ [128512]%N ++ runes_of_ascii " emoji
+Foo , repeat
 Logon
-    // c110
-, // c111a
-  // c111b
-148 // c112
-: // c113a
-  // c113b
-Ack
-    // c114
-, // c115a
-  // c115b
-88
-    // c116
-: Party // c118a
-  // c118b
-, // c119
-184 // c120a
-  // c120b
-: Cancel // c122a
-  // c122b
-, // c123
-} // c124
-, // c125a
-  // c125b
-u16
-    // c126
-Note // c127
-@calculatedFrom( ""CRC32"" // c129
-) // c130
-, // c131
-} ")).
-Eval vm_compute in ("<<<M386>>>" ++ check (runes_of_ascii "options {
-    StringPrefixLenType = u16;
-    ArrayPrefixLenType = u16;
+    f32a`
+` , @calculatedFrom( ""1"" ) repeat
+    uint8 // trailing space 
+calculatedFrom `u8 x,`
+, char[]
+    packetx , // packet A { u8 x, }
+@calculatedFrom(
+""abc"" ) Pad
+@lengthOf(msg_type  )`line1
+line2` ,
+@rightPad
+(
+' ' )
+tag`" ++ [233]%N ++ runes_of_ascii "` ,@tag( 10
+    /// triple
+    )u8x
+@calculatedFrom( ""CRC32"" ),match
+// trailing space 
+// trailing space 
+metadata
+as msg_type
+//
+// " ++ [27880; 37322]%N ++ runes_of_ascii "
+{[
+""\n"" //x
+, 0123456789// c
+] : options1
+,
+    ""\n""
+    :
+    float ,},} packet
+// " ++ [128512]%N ++ runes_of_ascii " emoji
+// " ++ [128512]%N ++ runes_of_ascii " emoji
+MetaDataX {string string_ `doc`
+,
+@rightPad
+    (
+    '0' ) zchar[
+// " ++ [128512]%N ++ runes_of_ascii " emoji
+// `tick` ""quote"" 'q'
+00 ]
+zchar `a\`
+,} options {leftPad = 0 float = 4294967296 ;
+}// `tick` ""quote"" 'q'
+root packet body{ @calculatedFrom( ""1"" ) @lengthOf( int ) match float as Z9_  {
+// packet A { u8 x, }
+// trailing space 
+42
+: x
+""packet"" :// `tick` ""quote"" 'q'
+matchKey	, """ ++ [28040; 24687]%N ++ runes_of_ascii """
+/// triple
+// packet A { u8 x, }
+: o ,	255 :	float }
+, @tag( 0123456789 ) match	calculatedFrom as // @lengthOf(
+trueish { [ ""packet"" , ""`tick`"" //x
+,	""" ++ [233]%N ++ runes_of_ascii "t" ++ [233]%N ++ runes_of_ascii """ ] : MetaDataX 4294967296 :trueish
+, 3 :
+// trailing space 
+// packet A { u8 x, }
+i64_ , 0123456789 :
+f32a , [ 7, //	t
+10	,	""CRC32"" ,	""x y"" , ""\n""
+    // `tick` ""quote"" 'q'
+    , ""CRC32""
+    , ""`tick`""
+    ]// `tick` ""quote"" 'q'
+: body , }, char[ 1//
+]Foo // " ++ [128512]%N ++ runes_of_ascii " emoji
+, @rightPad( ' ' ) @calculatedFrom( // " ++ [27880; 37322]%N ++ runes_of_ascii "
+""a	b""
+) repeat string_ { repeat Logon // @lengthOf(
+,	Z9_	i8i8 ,match Z9_ as
+    A {[ 42
+    ] :Logon , [ ""CRC32"" , 1 , ""a\""b"" , 4294967296 , 0, ""\" ++ [233]%N ++ runes_of_ascii """ ] : roots ""a\""b"" : MetaDataX , 255
+: _x
+,
+    65535
+    :
+    rootA , }	,match _x as Foo {[ 255
+    , """ ++ [28040; 24687]%N ++ runes_of_ascii """ ,// packet A { u8 x, }
+""CRC32"" ,
+    // c
+    """ ++ [233]%N ++ runes_of_ascii "t" ++ [233]%N ++ runes_of_ascii """ ,
+    ""abc"" ] : len""a\\""
+: Pad  0
+: falsey,3 :	u128
+    ,
+} ,// a // b
+} , repeat // packet A { u8 x, }
+options1 int `{ , }`
+// packet A { u8 x, }
+//
+,
+}")).
+Eval vm_compute in ("<<<M383>>>" ++ check (runes_of_ascii "options {
+	StringPrefixLenType = u16;
+	ArrayPrefixLenType = u16;
 }
 
 packet SampleBinary {
@@ -194,12 +125,12 @@ packet SampleBinary {
         4 : RiskControlRequest,
         5 : RiskControlResponse,
     },
-    @calculatedFrom(""CRC32"")
+        @calculatedFrom(""CRC32"")
     u32 Ckecksum `" ++ [26657; 39564; 21644]%N ++ runes_of_ascii "`,
 }
 
 packet Logon {
-    @leftPad('0')
+     @leftPad('0')
     char[10] UserName `" ++ [29992; 25143; 21517]%N ++ runes_of_ascii "`,
     string Password `" ++ [23494; 30721]%N ++ runes_of_ascii "`,
     uint64 ClientId `" ++ [23458; 25143; 31471]%N ++ runes_of_ascii "ID`,
@@ -207,7 +138,7 @@ packet Logon {
 }
 
 packet Logout {
-    @rightPad('0')
+      @rightPad('0')
     char[10] UserName `" ++ [29992; 25143; 21517]%N ++ runes_of_ascii "`,
     uint64 ClientId `" ++ [23458; 25143; 31471]%N ++ runes_of_ascii "ID`,
 }
@@ -226,10 +157,10 @@ packet RiskControlRequest {
     u32 Qty `" ++ [25968; 37327]%N ++ runes_of_ascii "`,
     repeat string ExtraInfo `" ++ [38468; 21152; 20449; 24687]%N ++ runes_of_ascii "`,
     repeat SubOrder {
-        char[16] ClOrdID `" ++ [23376; 35746; 21333; 21495]%N ++ runes_of_ascii "`,
-        u64 Price `" ++ [23376; 35746; 21333; 20215; 26684]%N ++ runes_of_ascii "`,
-        u32 Qty `" ++ [23376; 35746; 21333; 25968; 37327]%N ++ runes_of_ascii "`,
-    },
+    		char[16] ClOrdID `" ++ [23376; 35746; 21333; 21495]%N ++ runes_of_ascii "`,
+    		u64 Price `" ++ [23376; 35746; 21333; 20215; 26684]%N ++ runes_of_ascii "`,
+    		u32 Qty `" ++ [23376; 35746; 21333; 25968; 37327]%N ++ runes_of_ascii "`,
+    	},
 }
 
 packet RiskControlResponse {
@@ -243,197 +174,161 @@ packet Detail {
     string RuleName `" ++ [35268; 21017; 21517; 31216]%N ++ runes_of_ascii "`,
     u16 Code `" ++ [21407; 22240; 20195; 30721]%N ++ runes_of_ascii "`,
 }")).
-Eval vm_compute in ("<<<M96>>>" ++ check (runes_of_ascii "packet  int//x
-{
-// " ++ [128512]%N ++ runes_of_ascii " emoji
-//	t
-} packet Z9_ {
-    @tag(  1
-) @tag(00 ) zchar[ 0 ] trueish `// not a comment`
-, Header @lengthOf(
-repeatCount ) // `tick` ""quote"" 'q'
-,charz float`crlf
-line` , match
-lengthOf as	u
-    // c
-    { // `tick` ""quote"" 'q'
-65535  :
-    msg_type
-,""1""
-:
-    // " ++ [27880; 37322]%N ++ runes_of_ascii "
-    x
-    ,
-""a\""b"" : packetx , 10:
-msg_type """ ++ [128512]%N ++ runes_of_ascii """ :
-calculatedFrom [
-7 ,0	]
-    // c
-    : // " ++ [128512]%N ++ runes_of_ascii " emoji
-u128 , }, string i8i8`{ , }` , } packet// @lengthOf(
-a1{ } root packet roots {
-    @lengthOf(
-    // " ++ [128512]%N ++ runes_of_ascii " emoji
-    u )
-f64 Logon,@lengthOf(
-_x	) As
-    @calculatedFrom(""\n"" ) , @leftPad
-// packet A { u8 x, }
-// " ++ [27880; 37322]%N ++ runes_of_ascii "
-(  )repeatCount
-@calculatedFrom( ""{,}""
-)
-`tab	here`
-    // trailing space 
-    , @tag(
-    //x
-    42)char[
-1
-    ]T
-    `a\`
-,int64
-_x// packet A { u8 x, }
-, zchar[	4294967296
-    ]
-i64_ @lengthOf(  tag
-    //	t
-    )
-    `
-`
-    , @calculatedFrom(""a\""b""
-    //x
-    ) u8 len`it's` , @leftPad
-(
-) metadata@lengthOf(tag
-    ) `{ , }` ,@leftPad// packet A { u8 x, }
-( ' '
-) MetaDataX  {
-    repeat char[]	rootA
-    ,
-    // c
-    } ,i8 body ,}
-")).
-Eval vm_compute in ("<<<M17>>>" ++ check (runes_of_ascii "
-MetaData
-    x{ len
-    crc , float
-    // " ++ [128512]%N ++ runes_of_ascii " emoji
-    asx, i32 uint8x`line1
-line2` ,u16
-tag
-// `tick` ""quote"" 'q'
-//x
-`it's` , As string_
-    ,
-}
-packet metadata {@lengthOf(zchar )// c
-i64_ @calculatedFrom(
-""\" ++ [233]%N ++ runes_of_ascii """	) , //x
-@leftPad
-    ( '\x00' ) zchar[ 10
-] zchar
-    ,
-    lengthOf //x
-string_ ,int @lengthOf( pack
-    ),
-    zchar[ 00 ]
-    Foo , @lengthOf( packetx )
-    @leftPad (
-'\x00'// " ++ [27880; 37322]%N ++ runes_of_ascii "
-) @calculatedFrom(
-    // @lengthOf(
-    ""x y"" )uint16
-len@calculatedFrom( """" )
-`two words` , int8
-    metadata @lengthOf( Foo )`two words`	, // @lengthOf(
-}options
-{ }
+Eval vm_compute in ("<<<M149>>>" ++ check (runes_of_ascii "// trailing space 
 packet
-pack{
-// `tick` ""quote"" 'q'
-//
-f64
-    o , T BodyLength  ,
-    repeat
-    uint8 chars  `" ++ [233]%N ++ runes_of_ascii "`
-    ,repeat
-    // c
-    Logon
-u
-    // " ++ [128512]%N ++ runes_of_ascii " emoji
-    ,@tag(
-    0123456789 )
-char[] repeatCount @lengthOf(// " ++ [27880; 37322]%N ++ runes_of_ascii "
-_x )
-    // c
-    `
-` ,//
-@tag(
-// packet A { u8 x, }
-/// triple
-7 )  repeatCount @calculatedFrom(""packet"" ) `{ , }` , }")).
-Eval vm_compute in ("<<<M371>>>" ++ check (runes_of_ascii "root
-    packet
-packetx
-    {
-    @tag( 0) char[00 ] Z9_
-    ,
-    // a // b
-    falsey
-    // c
-    { match
-    x as options1 { [//	t
-42 ,
-    007 ]:
-    uint8x } , uint8 falsey `crlf
-line` , }
-, f64 Pad
-, @tag(7  ) string Logon// " ++ [27880; 37322]%N ++ runes_of_ascii "
-`a\`, @lengthOf(
-lengthOf//	t
-) char[
-3
-    ]
-// " ++ [27880; 37322]%N ++ runes_of_ascii "
-//
-calculatedFrom @calculatedFrom(
-""" ++ [28040; 24687]%N ++ runes_of_ascii """
-)
-, char[]
-    T , //x
-@tag(
-42 ) @leftPad ( )
-    char[]trueish
-@calculatedFrom(""`tick`"" ) ,match
+    charz {	@calculatedFrom( ""1""
+)match x
+as tag
+    {	[
+7 , // @lengthOf(
+0
+, 65535	,
     // `tick` ""quote"" 'q'
-    uint8x as pack { [
-    ""abc"",
-    ""1"" ,""packet""
-,
-// `tick` ""quote"" 'q'
-// `tick` ""quote"" 'q'
-1,
-    ""a\""b""]: As	, """ ++ [28040; 24687]%N ++ runes_of_ascii """ :
-    trueish ,} ,
-}
-packet/// triple
-charz
-{
-    repeat
-Z9_ { Pad  {match len as string_{
-    // a // b
-    4294967296
-    : msg_type , [""// no comment""
-    ] :u
+    ""it's""/// triple
+,0
     ,
-} ,} , zchar[
-    65535
-] As  @lengthOf(//x
-string_
-)
+""x y"", 255 ] :tag  , [ ""1"" // a // b
+, //	t
+3  , 007, // " ++ [27880; 37322]%N ++ runes_of_ascii "
+255 ,  ""x y""
+    // @lengthOf(
+    ] :pack ,[""" ++ [233]%N ++ runes_of_ascii "t" ++ [233]%N ++ runes_of_ascii """	, 7  , 10  , 3
+, 0
+    , ""a\""b"" ] :
+    // packet A { u8 x, }
+    leftPad, [ 65535
+    // " ++ [27880; 37322]%N ++ runes_of_ascii "
+    ,
+""x y""]
+: chars [ ""\n"" ,65535 , ""a\\""
+] :
+A	, ""\n"" :
+    lengthOf , } ,
+match string_
+    as	i8i8 { 7 :msg_type , // c
+""abc"" :
+tag ,""a\""b"" :metadata, 255
+    : matchKey	,
+    [""CRC32"" ,""1""
+// " ++ [27880; 37322]%N ++ runes_of_ascii "
+// " ++ [128512]%N ++ runes_of_ascii " emoji
+, 007 , ""packet"" ,""a\\"" /// triple
+,	""a\""b""
+    // " ++ [128512]%N ++ runes_of_ascii " emoji
+    , 007 , 4294967296 ] : lengthOf , }
+,uint16
+pack , string Pad@lengthOf( o ) `say ""hi""` ,repeat i8 body
+    ,
+@lengthOf( //x
+crc ) float64 body `// not a comment`
+, repeat rootA { int16 x_y_z `tab	here` ,
+falsey @calculatedFrom( ""{,}"" ), trueish @lengthOf(
+crc) `{ , }` , }
+, match Pad as
+Header
+{
+    4294967296: Header,""\n"" :msg_type,""a	b"" :
+    x_y_z
+    , }
 ,
-} ,
-    }")).
+    //	t
+    Logon
+, } 	 ")).
+Eval vm_compute in ("<<<M289>>>" ++ check (runes_of_ascii "options  {
+// " ++ [27880; 37322]%N ++ runes_of_ascii "
+//x
+float // packet A { u8 x, }
+=char[]
+    // @lengthOf(
+    ; Header = false
+//
+/// triple
+}
+    // `tick` ""quote"" 'q'
+    options {	x =char[] ; }	MetaData i64_{f64 As
+    /// triple
+    `
+` , repeatCount MetaDataX
+// `tick` ""quote"" 'q'
+// `tick` ""quote"" 'q'
+,
+repeatCount u128 //x
+,	metadata msg_type `tab	here`
+    ,
+    }
+packet  options1
+    {
+    repeat char[0123456789] T  , @tag(  65535
+)
+    //x
+    @calculatedFrom( ""CRC32""
+) @calculatedFrom( """ ++ [28040; 24687]%N ++ runes_of_ascii """ ) repeat string
+Logon
+    ,	@lengthOf( u128 )
+stringy  {string_ x ,
+} , @tag( // " ++ [27880; 37322]%N ++ runes_of_ascii "
+10) u64 tag @lengthOf(roots), Foo	@lengthOf(
+Foo
+)`// not a comment` ,
+string pack `a\` , match A
+    as charz {
+[ 3 ] : x ,} ,@tag(42 ) f64 msg_type @lengthOf(
+trueish )
+,match	pack /// triple
+as
+options1 { """ ++ [28040; 24687]%N ++ runes_of_ascii """ : // packet A { u8 x, }
+string_ ,	[ 65535, 7 ,
+""a\""b""
+    , 7]//	t
+: f32a 4294967296: o ,  }	,
+    char[] falsey ,
+} // " ++ [128512]%N ++ runes_of_ascii " emoji")).
+Eval vm_compute in ("<<<M168>>>" ++ check (runes_of_ascii "options
+//x
+// @lengthOf(
+{
+    Foo =""// no comment""
+/// triple
+//	t
+; }
+packet float {
+} packet
+    len { @lengthOf(
+    _x ) stringy{
+    metadata	@calculatedFrom( ""a\\"" )
+, } ,
+//x
+//
+}	packet asx {
+@tag( 0 ) repeat float64
+A`say ""hi""` ,
+//
+// trailing space 
+i16 int
+    `say ""hi""` , @calculatedFrom( """ ++ [128512]%N ++ runes_of_ascii """) lengthOf Header `two words` ,
+f32a
+    zchar , @rightPad
+    ( '0'
+)repeat string_
+    // packet A { u8 x, }
+    chars ``  , @tag( 4294967296)
+    @calculatedFrom( ""a	b"" )repeat
+    msg_type,  @leftPad( ) repeat f64 _x ,	repeat As { Logon @lengthOf(
+calculatedFrom) `two words` ,
+    repeat u64 o `u8 x,`	, } , @calculatedFrom(
+""packet"" ) repeat // @lengthOf(
+uint8 u ,} packet
+uint8x{@leftPad ( '0'
+    )
+//	t
+//x
+zchar[
+// packet A { u8 x, }
+// " ++ [27880; 37322]%N ++ runes_of_ascii "
+255
+    ]	metadata `a\`
+    ,//
+} // `tick` ""quote"" 'q'")).
 Eval vm_compute in ("<<<M90>>>" ++ check (runes_of_ascii "root packet lengthOf
 { // a // b
 match i64_  as options1{	""// no comment"":
@@ -473,392 +368,398 @@ trueish @calculatedFrom(	""a\\"" ) `two words`
 , i16
 Logon, }
 ")).
-Eval vm_compute in ("<<<M243>>>" ++ check (runes_of_ascii "// a // b
-packet stringy { @tag( 3 ) // trailing space 
-i64
-    len
-,@calculatedFrom( ""1""  ) char[
-0 ]
-x @lengthOf(Foo )
-,@calculatedFrom( """" )
-body
-// c
-// " ++ [128512]%N ++ runes_of_ascii " emoji
-@lengthOf(
-calculatedFrom )`line1
-line2`
-    , @calculatedFrom( ""it's"" // " ++ [128512]%N ++ runes_of_ascii " emoji
-)// packet A { u8 x, }
-match falsey
-    // packet A { u8 x, }
-    as u8x {[
-""" ++ [128512]%N ++ runes_of_ascii """
-    , // a // b
-42 , 1 ,10 ]
-: Header , } ,
-// trailing space 
-// `tick` ""quote"" 'q'
-} MetaData// " ++ [128512]%N ++ runes_of_ascii " emoji
-stringy{ f32a
-    u128 `{ , }` , char[ // a // b
-10 ]u128	, chars _x , zchar[ 65535 // trailing space 
-]/// triple
-falsey
-    `{ , }`
-    , _x i64_
-, int32
-Packet
-`crlf
-line` , } MetaData lengthOf
-{
-    }
-// trailing space 
-")).
-Eval vm_compute in ("<<<M1118>>>" ++ check (runes_of_ascii "MetaData Packet
-    // c1
-{ // c2
-} packet // c4a
-  // c4b
-charz // c5a
-  // c5b
-{ // c6a
-  // c6b
-Foo // c7
-asx `it's` ,
-    // c10
-@lengthOf( // c11
-T )
-    // c13
-@calculatedFrom(
-    // c14
-"""" // c15
-)
-    // c16
-@calculatedFrom(
-    // c17
-""x y"" // c18
-) // c19a
-  // c19b
-zchar[ 007 // c21
-] repeatCount @lengthOf(
-    // c24
-int // c25
-)
-    // c26
-`a\`
-    // c27
-, // c28a
-  // c28b
-i8
-    // c29
-string_ // c30a
-  // c30b
-, // c31
-repeat // c32
-options1 // c33
-Pad
-    // c34
-, } // c36a
-  // c36b
-root packet
-    // c38
-Packet { int8 // c41
-float `doc` // c43
-, // c44
-}
-    // c45
-")).
-Eval vm_compute in ("<<<M65>>>" ++ check (runes_of_ascii "packet leftPad {
-match A as x {""`tick`""
-    : MetaDataX //
-, [""it's""
-,""\n"" ,
-""" ++ [28040; 24687]%N ++ runes_of_ascii """ ] :
-string_ , 0123456789 : o ,
-[
-""{,}"", ""x y"" ]
-:uint8x	} , char[3	] msg_type// " ++ [128512]%N ++ runes_of_ascii " emoji
-@lengthOf( u
-//	t
-// " ++ [27880; 37322]%N ++ runes_of_ascii "
-)`two words` ,
-    // c
-    repeat
-    int
-// packet A { u8 x, }
-// @lengthOf(
-Foo ,
-@rightPad
-(
+Eval vm_compute in ("<<<M6>>>" ++ check (runes_of_ascii "// `tick` ""quote"" 'q'
+packet As
+{ @rightPad ( '0' ) stringy
+@lengthOf( calculatedFrom),	@tag( 10	) string uint8x `
+` ,	match body // packet A { u8 x, }
+as uint8x {
+    ""it's"" :  rootA , [ 00 ] : leftPad
+    ,
+42 :	MetaDataX , ""a	b"" :  calculatedFrom
+    255
+:trueish	} , repeat	i64 Logon `tab	here` , } options {crc
+= '\x00' ;}
+packet x { @calculatedFrom(
+""a\\""
     )
-@rightPad
-( ' ' )
-    Foo charz`{ , }`, }
-MetaData A {
-zchar[
-0 ]A `{ , }`
-    , float32 a1
-    //
+@tag( 42
+) @leftPad	( '0' // c
+) match o	as /// triple
+x_y_z {// packet A { u8 x, }
+[ """ ++ [128512]%N ++ runes_of_ascii """// trailing space 
+, ""x y"" , // c
+0123456789 ,""CRC32"" ,
+//	t
+// packet A { u8 x, }
+""it's""
+, 007
+, 3, 007 // @lengthOf(
+] :	Packet // c
+[	255, ""x y""
+    ] :x_y_z
     ,
-    char[]  pack , /// triple
-string body `" ++ [233]%N ++ runes_of_ascii "` , string chars `doc` , int _x`two words`
-,} options { Z9_ =
-    uint16 ; }")).
-Eval vm_compute in ("<<<M328>>>" ++ check (runes_of_ascii "
-packet
-Logon { repeatCount { BodyLength
-    `crlf
-line`, }
-    , zchar a1 `u8 x,`  ,
-match Foo as Foo { ""\n"" :i8i8,[
-""abc""
-    , // trailing space 
-""CRC32"" ]
-/// triple
-// " ++ [128512]%N ++ runes_of_ascii " emoji
-: // @lengthOf(
-crc
-    [ 3 ,
-//
-// " ++ [128512]%N ++ runes_of_ascii " emoji
-""x y"", 42 , ""`tick`""
-, 1 , ""a\""b"",
-    ""CRC32"" , 255 ]:repeatCount , [// " ++ [128512]%N ++ runes_of_ascii " emoji
-1
-// a // b
-// " ++ [27880; 37322]%N ++ runes_of_ascii "
-,007 ,
-""\n"",007 , 7 , ""// no comment"" ,
-255 ] :
-    uint8x 00
-: f32a , } ,
-    // a // b
-    uint16 Pad @lengthOf( uint8x)// packet A { u8 x, }
-`doc`  ,
-}")).
-Eval vm_compute in ("<<<M1372>>>" ++ check (runes_of_ascii "options {
-    LittleEndian = true;
-    StringPrefixLenType = u64;
-    ArrayPrefixLenType = u16;
-    FixedStringPadFromLeft = false;
-    FixedStringPadChar = ' ';
-}
-packet Logon {
-    zchar[5] Side2,
-}
-root packet Logout {
-    repeat i64 Tail,
-    Logon,
-    repeat i16 OrderId,
-    char[] venue,
-    uint64 x,
-    repeat i16 count,
-    u8 Flags,
-    match Flags as Body {
-        25 : Logon,
-    },
-    u16 Qty @calculatedFrom(""CRC32""),
-}
+} , }
+// trailing space 
 ")).
-Eval vm_compute in ("<<<M1271>>>" ++ check (runes_of_ascii "options { // c1a
-  // c1b
-LittleEndian
-    // c2
-= // c3
-true // c4
-; } // c6a
-  // c6b
-packet B { u8 // c10a
-  // c10b
-a
-    // c11
-, // c12a
-  // c12b
-string // c13
-s // c14
-, } // c16
-root // c17a
-  // c17b
-packet
-    // c18
-P // c19
-{ u16 // c21
-L @lengthOf( B ) // c25a
-  // c25b
-, // c26a
-  // c26b
-B // c27a
-  // c27b
-,
-    // c28
-u8
-    // c29
-t // c30
-, // c31
-} // c32a
-  // c32b
-")).
-Eval vm_compute in ("<<<M1878>>>" ++ check (runes_of_ascii "// top
-packet A {
-    // c2
-    u8 a,
-}// c6a
-
-// c6b
-packet B {
-    u16 b,
-    // c12
-}
-
-// c13
-root packet P {
-    // c17a
-    // c17b
-    u8 K1,// c20
-    u8 K2,// c23a
-    // c23b
-    match K1 as M1 {
-        // c28a
-        // c28b
-        1 : A,
-        // c32a
-        // c32b
-    },
-    match K2 as M2 {
-        1 : B,
-    },
-    // c45
-}// c46")).
-Eval vm_compute in ("<<<M377>>>" ++ check (runes_of_ascii "packet crc {match  trueish
-    as
-len {
-42 : uint8x,// " ++ [128512]%N ++ runes_of_ascii " emoji
-""1"" :asx ,	3
-: body [ ""1"" , 0123456789]: u ""packet"" : o , } , } MetaData tag
-{
-    string
-o `line1
-line2`
-,
-char[] //
-Header `{ , }`// c
-,  uint8x Z9_, } MetaData
-tag
-{ i8 len , }
-    options //x
-{
-// `tick` ""quote"" 'q'
-/// triple
-x= 10;
-}
-")).
-Eval vm_compute in ("<<<M1712>>>" ++ check (runes_of_ascii "
-options{	LittleEndian=
-true
-
-; 
-}  packet Logon	{u8  x
-    ,
-    string
-user
-,  }	packet
-Logout
-
-    {
-
-    u16
-reason ,
-	}packet
-	Empty { }
-
+Eval vm_compute in ("<<<M131>>>" ++ check (runes_of_ascii "
 root
 packet
-
-Frame 
-{ u16
-
-    MsgType , u8
-	BodyLen  @lengthOf(
-Body
-    ) ,	u8	flags
-
-,  Logon
-
-Body 
-,
-u32 trailer ,  }")).
-Eval vm_compute in ("<<<M1780>>>" ++ check (runes_of_ascii "packet As {
-    @tag(42)
-    repeat Logon uint8x ``,
-    repeat int32 x_y_z,
-    char[7] pack,
-    repeat string crc `// not a comment`,
-    @calculatedFrom(""`tick`"")
-    @tag(1)
-    match chars as MetaDataX {
-        4294967296 : T,
-    },
-}")).
-Eval vm_compute in ("<<<M358>>>" ++ check (runes_of_ascii "
-packet matchKey	{ // @lengthOf(
-@lengthOf(
-a1 ) string_
-T`" ++ [28040; 24687; 31867; 22411]%N ++ runes_of_ascii "`, //
-} packet body {f32 _x  , packetx @lengthOf(
-options1 ) // packet A { u8 x, }
-`` , @leftPad ( ' ') i16 crc ,@calculatedFrom(
-""" ++ [128512]%N ++ runes_of_ascii """
-)	Pad
-, } //")).
-Eval vm_compute in ("<<<M121>>>" ++ check (runes_of_ascii "packet u128 { @calculatedFrom(  ""a	b"" ) // packet A { u8 x, }
-@leftPad( ' '
-) //	t
-@lengthOf(
-Header // packet A { u8 x, }
-) char[10
-    ] crc@lengthOf(
-len ) , } MetaData i8i8 { }
+u8x{ char
+// trailing space 
+// @lengthOf(
+i64_ ,repeat char[1
+] Z9_ , @tag(
+//x
+// " ++ [128512]%N ++ runes_of_ascii " emoji
+42
+) repeat Logon MetaDataX , @leftPad
+    //
+    ( )
+    Foo
+@lengthOf( As
+    ) // " ++ [128512]%N ++ runes_of_ascii " emoji
+, match u128	as //	t
+calculatedFrom {// " ++ [128512]%N ++ runes_of_ascii " emoji
+4294967296:
+BodyLength,
+    3:  A , //
+[ 4294967296//
+, ""packet""] : o	, 65535 : roots } ,
+repeat Pad { uint64 x @calculatedFrom( """ ++ [128512]%N ++ runes_of_ascii """
+    ) , a1 @lengthOf( As)
+    `line1
+line2` ,	repeat string_{repeat uint32 _x	, f32
+MetaDataX `it's`
+    //	t
+    , u64 As  @lengthOf( crc ) , } ,
+    roots , }, zchar[  00] // @lengthOf(
+u128, }
+//	t
 ")).
-Eval vm_compute in ("<<<M1683>>>" ++ check (runes_of_ascii "root packet _x {
-    uint32 trueish @calculatedFrom(""1"") `crlf
-    line`,
+Eval vm_compute in ("<<<M1887>>>" ++ check (runes_of_ascii "  // top
+	  options 
+    // c0
+  {
+// c1
+      f32a
+
+    // c2
+
+= 
+    // c3
+	  0
+    // c4
+  } 
+// c5
+packet
+        // c6
+
+trueish
+
+// c7
+{ 
+  // c8
+	}
+	// c9
+	MetaData 
+	    // c10
+
+  _x
+// c11
+
+{ 
+  // c12
+    char[ 
+// c13
+	0123456789
+        // c14
+  ] 
+    // c15
+
+zchar
+	// c16
+  , 
+    // c17
+  string  
+      // c18
+crc 
+
+    // c19
+  	, 
+        // c20
+
+	char[
+    // c21
+      1 
+  // c22
+	  ] 
+	    // c23
+options1
+    // c24
+,  
+  // c25
+	uint8 
+
+// c26
+  repeatCount
+// c27
+,
+	// c28
+	} 
+  // c29")).
+Eval vm_compute in ("<<<M294>>>" ++ check (runes_of_ascii "options { rootA = 4294967296 ; falsey = ""a\""b""
+;
+As =
+// @lengthOf(
+/// triple
+""""
+;packetx
+    = ""packet"" i8i8 =true ;
+} // `tick` ""quote"" 'q'
+packet x  { repeat zchar
+rootA , char[]
+    pack  `// not a comment`
+,@tag( 00 )
+@tag( 0123456789)
+u @calculatedFrom( ""packet"" )`u8 x,` , Header{
+    zchar[ 00
+    ] body
+,
+    a1	@calculatedFrom( // " ++ [128512]%N ++ runes_of_ascii " emoji
+""it's"" )
+`" ++ [233]%N ++ runes_of_ascii "`, }, } // " ++ [27880; 37322]%N ++ runes_of_ascii "
+MetaData
+    A // a // b
+{zchar /// triple
+matchKey
+    `` , int64 metadata ,char[] _x //	t
+, }
+")).
+Eval vm_compute in ("<<<M1622>>>" ++ check (runes_of_ascii "MetaData pack {
+    int16 rootA `{ , }`,
+    //	t
+    int16 x,// " ++ [27880; 37322]%N ++ runes_of_ascii "
+    u32 msg_type,
 }
 
-//
-packet Header {
-    repeat u64 stringy `// not a comment`,
-    float32 msg_type,
+packet i64_ {
+    // trailing space 
+    @leftPad('0')
+    @rightPad('\x00')
+    @lengthOf(options1)
+    string body @lengthOf(asx) `" ++ [233]%N ++ runes_of_ascii "`,
+}
+
+options {
+    msg_type = 00;
+}
+
+MetaData stringy {
+    zchar MetaDataX `line1
+    line2`,
+    char[255] len `it's`,
+    f32 pack,
+    uint16 Foo `it's`,
+    int16 i64_ `two words`,
+    // `tick` ""quote"" 'q'
 }")).
-Eval vm_compute in ("<<<M1546>>>" ++ check (runes_of_ascii "packet A {
-    Inner {
-        match k as n {
-            [
-                1, 22, 007, 4, 5,
-                66, 7, 8
-            ] : B,
-        },
-    },
+Eval vm_compute in ("<<<M1627>>>" ++ check (runes_of_ascii "// top
+    	packet 
+
+// c0
+B
+
+    // c1
+
+{	// c2
+	u8  
+  // c3
+      a 	 // c4
+  , string  // c6
+	s 
+	    // c7
+,}
+	root	// c10
+    	packet 
+    // c11
+  P  // c12a
+  // c12b
+	{
+	    // c13
+	u16 
+	    // c14
+  L	// c15a
+  	// c15b
+	@lengthOf(
+B 
+      // c17
+  ) 
+
+// c18
+  ,
+        // c19
+    B  
+      // c20
+  ,
+u8	// c22a
+    // c22b
+
+t
+    // c23
+		, 	 // c24
+	}
+")).
+Eval vm_compute in ("<<<M1234>>>" ++ check (runes_of_ascii "// top
+options // c0
+{ // c1
+f32a // c2
+= // c3
+0 // c4
+} // c5
+packet // c6
+trueish // c7
+{ // c8
+} // c9
+MetaData // c10
+_x // c11
+{ // c12
+char[ // c13
+0123456789 // c14
+] // c15
+zchar // c16
+, // c17
+string // c18
+crc // c19
+, // c20
+char[ // c21
+1 // c22
+] // c23
+options1 // c24
+, // c25
+uint8 // c26
+repeatCount // c27
+, // c28
+} // c29
+")).
+Eval vm_compute in ("<<<M57>>>" ++ check (runes_of_ascii "packet	tag { }
+packet falsey
+    { string charz @lengthOf(
+    zchar ) ,
+string // trailing space 
+u @calculatedFrom( """ ++ [233]%N ++ runes_of_ascii "t" ++ [233]%N ++ runes_of_ascii """	) `// not a comment`
+, @leftPad( '0' )
+char[] leftPad @calculatedFrom(
+    ""a	b"")`// not a comment` , @calculatedFrom(
+    ""`tick`"" )
+    @lengthOf(roots
+) repeat MetaDataX
+, }
+
+")).
+Eval vm_compute in ("<<<M1580>>>" ++ check (runes_of_ascii "options {
+    LittleEndian = false;
+    StringPrefixLenType = u16;
+}
+
+packet Heartbeat {
+    @rightPad('0')
+    char[7] seqNo,
+    uint64 Tail,
+    i16 Flags,
+    u16 msgKind,
+}
+
+root packet Reject {
+    zchar[3] tag7,
+    repeat Heartbeat,
+    repeat string clOrdID,
 }")).
-Eval vm_compute in ("<<<M651>>>" ++ check (runes_of_ascii "// @lengthOf(
-packet i8i8 { u128 o , }
-options { MetaDataX MetaDataX = true;
-    BodyLength =""packet"" x_y_z= 007
-crc //x
-= ""abc"" ;
-    msg_type =
-i16 }")).
-Eval vm_compute in ("<<<M539>>>" ++ check (runes_of_ascii "packet uint8x
+Eval vm_compute in ("<<<M97>>>" ++ check (runes_of_ascii "packet
+i8i8 { repeat char[	00 ] Pad
+    `a\` ,
+@leftPad
+    (
+'\x00') string	a1@lengthOf(tag )``, float64
+    u128 @calculatedFrom( ""1""
+)  ,	@lengthOf( x
+    )
+    u128 @lengthOf( tag )
+`" ++ [28040; 24687; 31867; 22411]%N ++ runes_of_ascii "` , int64 u ,
+A//x
+T
+    `say ""hi""`
+, }
+")).
+Eval vm_compute in ("<<<M367>>>" ++ check (runes_of_ascii "
+packet roots  { @calculatedFrom( ""a\\"" ) @lengthOf( packetx  ) match repeatCount
+as body { 007:
+    lengthOf ,
+    00
+    :// `tick` ""quote"" 'q'
+zchar,} ,
+char[] chars
+`say ""hi""`,}
+MetaData packetx
+    {}
+")).
+Eval vm_compute in ("<<<M1295>>>" ++ check (runes_of_ascii "packet
+    A{ 
+u8 a,
+}packet
+B
+
+{u16
+	b
+
+    , } root
+packet 
+P
+
+    {  u8
+    K1
+, u8
+
+K2 
+,match K1
+	as	M1
+{
+1
+    :
+
+A,
+
+    } ,	match
+
+K2
+as M2  {
+1:B ,
+    }
+    ,}
+")).
+Eval vm_compute in ("<<<M283>>>" ++ check (runes_of_ascii "
+root packet /// triple
+u8x {}options { o =	zchar[ 1 ]
+    Packet
+    // trailing space 
+    =u32 ; uint8x =""a\\"";
+    /// triple
+    u8x
+=0
+;
+    crc =""\n"" ; }")).
+Eval vm_compute in ("<<<M443>>>" ++ check (runes_of_ascii "packet uint8x
 { match pack
     as msg_type	{
-    0123456789 :	float
+    0123456789 :	@lengthOf(
 }
 ,
-} p" ++ [8232]%N ++ runes_of_ascii "acket //	t
+} packet //	t
 a1
     { } options {packetx
     = '\x00'	; u128= ""a	b""  ; }
 ")).
-Eval vm_compute in ("<<<M492>>>" ++ check (runes_of_ascii "packet uint8x
+Eval vm_compute in ("<<<M471>>>" ++ check (runes_of_ascii "packet uint8x
 { match pack
     as msg_type	{
     0123456789 :	float
@@ -866,249 +767,266 @@ Eval vm_compute in ("<<<M492>>>" ++ check (runes_of_ascii "packet uint8x
 ,
 } packet //	t
 a1
-    { } options {=
-    packetx '\x00'	; u128= ""a	b""  ; }
+    { { } options {packetx
+    = '\x00'	; u128= ""a	b""  ; }
 ")).
-Eval vm_compute in ("<<<M702>>>" ++ check (runes_of_ascii "// @lengthOf(
-packet i8i8 { u128 o , }
-options { MetaDataX = true;
-    BodyLength =""packet"" x_y_z= 007
-crc //x
-= ""abc"" ""abc"" ;
-    msg_type =
-i16 }")).
-Eval vm_compute in ("<<<M670>>>" ++ check (runes_of_ascii "// @lengthOf(
-packet i8i8 { u128 o , }
-options { MetaDataX = true;
-    BodyLength =""packet"" x_y_z= 007
-crc //x
-= ""abc"" ;
-    msg_type = =
-i16 }")).
-Eval vm_compute in ("<<<M679>>>" ++ check (runes_of_ascii "// @lengthOf(
-packet { i8i8 u128 o , }
-options { MetaDataX = true;
-    BodyLength =""packet"" x_y_z= 007
-crc //x
-= ""abc"" ;
-    msg_type =
-i16 }")).
-Eval vm_compute in ("<<<M98>>>" ++ check (runes_of_ascii "
-packet stringy {
+Eval vm_compute in ("<<<M397>>>" ++ check (runes_of_ascii "packet {
+uint8x match pack
+    as msg_type	{
+    0123456789 :	float
 }
-MetaData u8x	{ zchar[ 65535
-    // a // b
-    ] Pad ,stringy string_
-`u8 x,` ,	u8 lengthOf`
-` , char[ 255
-] pack , } 	 ")).
-Eval vm_compute in ("<<<M1270>>>" ++ check (runes_of_ascii "options {
-    LittleEndian = true;
+,
+} packet //	t
+a1
+    { } options {packetx
+    = '\x00'	; u128= ""a	b""  ; }
+")).
+Eval vm_compute in ("<<<M1241>>>" ++ check (runes_of_ascii "// top
+root
+    // c0
+packet // c1
+P // c2a
+  // c2b
+{ // c3
+char
+    // c4
+c // c5a
+  // c5b
+, // c6a
+  // c6b
+u8
+    // c7
+x // c8
+, // c9
+} // c10
+")).
+Eval vm_compute in ("<<<M408>>>" ++ check (runes_of_ascii "packet uint8x
+{ i8 pack
+    as msg_type	{
+    0123456789 :	float
 }
-packet B {
+,
+} packet //	t
+a1
+    { } options {packetx
+    = '\x00'	; u128= ""a	b""  ; }
+")).
+Eval vm_compute in ("<<<M391>>>" ++ check (runes_of_ascii " uint8x
+{ match pack
+    as msg_type	{
+    0123456789 :	float
+}
+,
+} packet //	t
+a1
+    { } options {packetx
+    = '\x00'	; u128= ""a	b""  ; }
+")).
+Eval vm_compute in ("<<<M1288>>>" ++ check (runes_of_ascii "// top
+root
+    // c0
+packet P
+    // c2
+{ // c3a
+  // c3b
+repeat // c4
+string // c5
+ss , // c7
+repeat u16 ns ,
+    // c11
+} // c12a
+  // c12b
+")).
+Eval vm_compute in ("<<<M61>>>" ++ check (runes_of_ascii "packet
+    i64_ { }
+MetaData uint8x {Packet tag , u8	repeatCount
+, x_y_z
+_x `" ++ [233]%N ++ runes_of_ascii "`
+    , zchar[
+    42
+    ]
+    crc
+`a\` ,
+} options	{ }")).
+Eval vm_compute in ("<<<M1470>>>" ++ check (runes_of_ascii "packet A {
     u8 a,
-    string s,
 }
+
+packet B {
+    u16 b,
+}
+
 root packet P {
-    u16 L @lengthOf(B),
-    B,
-    u8 t,
-}
-")).
-Eval vm_compute in ("<<<M1539>>>" ++ check (runes_of_ascii "packet A {
+    u8 K,
+    match K as M {
+        1 : A,
+        1 : B,
+    },
+}")).
+Eval vm_compute in ("<<<M1830>>>" ++ check (runes_of_ascii "packet A {
     match k as n {
         [
-            1, 22, ""c c"", 4, 5,
-            ""f""
+            1, 22, 007, 4, 5,
+            66
         ] : B,
         2 : C,
     },
 }")).
-Eval vm_compute in ("<<<M1699>>>" ++ check (runes_of_ascii "packet
-A{match k
-as n
-{
-    [ 1 ,	22
-,007, 4,	5
-, 66, 
-7
-
-    ,
-	8,
-9 , 10,
-	11
-    ]
-	: B
-,
-	2:
-
-C}
-
-    ,
-
-}
-")).
-Eval vm_compute in ("<<<M1172>>>" ++ check (runes_of_ascii "MetaData leftPad { chars MetaDataX , } packet repeatCount { char[ 255 ] uint8x `" ++ [233]%N ++ runes_of_ascii "`
+Eval vm_compute in ("<<<M1146>>>" ++ check (runes_of_ascii "MetaData leftPad
 // c
-, } MetaData pack { As Foo , }")).
-Eval vm_compute in ("<<<M302>>>" ++ check (runes_of_ascii "packet string_{@lengthOf(	float ) // @lengthOf(
-BodyLength { match uint8x as i64_ { 0123456789
-: As
-    , } , } , }")).
-Eval vm_compute in ("<<<M919>>>" ++ check (runes_of_ascii "packet A {
-    u16 len @lengthOf(body) `a
-b`,
-    u32 crc @calculatedFrom(""CRC32"") `a
-b`,
+{ chars MetaDataX , } packet repeatCount { char[ 255 ] uint8x `" ++ [233]%N ++ runes_of_ascii "` , } MetaData pack { As Foo , }")).
+Eval vm_compute in ("<<<M1178>>>" ++ check (runes_of_ascii "MetaData leftPad { chars MetaDataX , } packet repeatCount { char[ 255 ] uint8x `" ++ [233]%N ++ runes_of_ascii "` , } MetaData
+// c
+pack { As Foo , }")).
+Eval vm_compute in ("<<<M961>>>" ++ check (runes_of_ascii "packet A {
+    u16 len @lengthOf(body) `tab
+	x`,
+    u32 crc @calculatedFrom(""CRC32"") `tab
+	x`,
     string body,
 }")).
-Eval vm_compute in ("<<<M912>>>" ++ check (runes_of_ascii "packet A {
+Eval vm_compute in ("<<<M881>>>" ++ check (runes_of_ascii "packet A {
   match k as n {
-    [1, 22, ""c c"", 4, 5, ""f"", 7, 8, ""i"", 10, 11, ""l""] : B,
+    [""a"", ""bb"", ""c c"", ""d"", ""e"", ""f"", ""g"", ""h"", ""i"", ""j""] : B
     2 : C
   },
 }")).
-Eval vm_compute in ("<<<M885>>>" ++ check (runes_of_ascii "packet A {
+Eval vm_compute in ("<<<M868>>>" ++ check (runes_of_ascii "packet A {
   match k as n {
-    [""a"", 22, ""c c"", 4, ""e"", 66, ""g"", 8, ""i"", 10] : B
+    [""a"", ""bb"", ""c c"", ""d"", ""e"", ""f"", ""g"", ""h"", ""i""] : B
     2 : C
   },
 }")).
-Eval vm_compute in ("<<<M605>>>" ++ check (runes_of_ascii "
+Eval vm_compute in ("<<<M900>>>" ++ check (runes_of_ascii "packet A {
+  match k as n {
+    [1, 22, ""c c"", 4, 5, ""f"", 7, 8, ""i"", 10, 11] : B
+    2 : C
+  },
+}")).
+Eval vm_compute in ("<<<M565>>>" ++ check (runes_of_ascii "
 packet
-    asx {match u128 as lengthOf
-{
-//	t
-// `tick` ""quote"" 'q'
-255 : repeat ,
-    } ,	}")).
-Eval vm_compute in ("<<<M598>>>" ++ check (runes_of_ascii "
-packet
-    asx {match u128 as lengthOf
-{
-//	t
-// `tick` ""quote"" 'q'
-255 : : x ,
-    } ,	}")).
-Eval vm_compute in ("<<<M569>>>" ++ check (runes_of_ascii "
-packet
-    asx {u128 match as lengthOf
+    asx true match u128 as lengthOf
 {
 //	t
 // `tick` ""quote"" 'q'
 255 : x ,
     } ,	}")).
-Eval vm_compute in ("<<<M625>>>" ++ check (runes_of_ascii "
+Eval vm_compute in ("<<<M645>>>" ++ check (runes_of_ascii "
 packet
     asx {match u128 as lengthOf
 {
 //	t
 // `tick` ""quote"" 'q'
+255 : a" ++ [769]%N ++ runes_of_ascii "b ,
+    } ,	}")).
+Eval vm_compute in ("<<<M609>>>" ++ check (runes_of_ascii "
+packet
+    asx {match u128 as lengthOf
+{
+//	t
+// `tick` ""quote"" 'q'
+255 : x }
+    , ,	}")).
+Eval vm_compute in ("<<<M1636>>>" ++ check (runes_of_ascii "packet len {
+    int64 a1 @lengthOf(x_y_z),
+}
+
+// c
+// trailing space 
+packet x_y_z {
+}")).
+Eval vm_compute in ("<<<M553>>>" ++ check (runes_of_ascii "
+
+    asx {match u128 as lengthOf
+{
+//	t
+// `tick` ""quote"" 'q'
 255 : x ,
-    } ,")).
-Eval vm_compute in ("<<<M861>>>" ++ check (runes_of_ascii "packet A {
+    } ,	}")).
+Eval vm_compute in ("<<<M834>>>" ++ check (runes_of_ascii "packet A {
   match k as n {
-    [1, 22, ""c c"", 4, 5, ""f"", 7, 8] : B
+    [1, 22, ""c c"", 4, 5, ""f""] : B,
     2 : C
   },
 }")).
-Eval vm_compute in ("<<<M831>>>" ++ check (runes_of_ascii "packet A {
+Eval vm_compute in ("<<<M818>>>" ++ check (runes_of_ascii "packet A {
   match k as n {
-    [1, ""bb"", 007, ""d"", 5, ""f""] : B
+    [1, ""bb"", 007, ""d"", 5] : B
     2 : C
   },
 }")).
-Eval vm_compute in ("<<<M1525>>>" ++ check (runes_of_ascii "root packet P {
-    u16 a,
-    u32 Sum @calculatedFrom(""CR\
-        C32""),
-}")).
-Eval vm_compute in ("<<<M1605>>>" ++ check (runes_of_ascii "
-
-  packet	body { i32 
-f32a
-`{ , }`
-	,
-
-    }
-
-options { 	 // c
-
-  }
-")).
-Eval vm_compute in ("<<<M792>>>" ++ check (runes_of_ascii "packet A {
+Eval vm_compute in ("<<<M814>>>" ++ check (runes_of_ascii "packet A {
   match k as n {
-    [1, ""bb"", 007] : B
+    [1, 22, 007, 4, 5] : B
     2 : C
   },
 }")).
-Eval vm_compute in ("<<<M444>>>" ++ check (runes_of_ascii "packet uint8x
-{ match pack
-    as msg_type	{
-    0123456789 :")).
-Eval vm_compute in ("<<<M1646>>>" ++ check (runes_of_ascii "packet
-body{	i32  f32a 
-`{ , }`
-,	} options  {
-	// c
-  }")).
-Eval vm_compute in ("<<<M786>>>" ++ check (runes_of_ascii "packet A { Inner { match k as n { [1,22] : B, }, }, }")).
-Eval vm_compute in ("<<<M1889>>>" ++ check (runes_of_ascii "MetaData M {
-    u8 x `x
-    `,
-    T t `x
-    `,
+Eval vm_compute in ("<<<M1755>>>" ++ check (runes_of_ascii "MetaData M {
+    u8 x `tab
+        	x`,
+    T t `tab
+        	x`,
 }")).
-Eval vm_compute in ("<<<M1286>>>" ++ check (runes_of_ascii "
+Eval vm_compute in ("<<<M2>>>" ++ check (runes_of_ascii "root
+// trailing space 
+// " ++ [27880; 37322]%N ++ runes_of_ascii "
+packet
+u{  } // trailing space ")).
+Eval vm_compute in ("<<<M1754>>>" ++ check (runes_of_ascii "
 
   root
-    packet P{ 
-string
-	s
 
-    , }
+    packet
+    chars	{
+i16
+    leftPad	,  }
 ")).
-Eval vm_compute in ("<<<M337>>>" ++ check (runes_of_ascii "//	t
-options
+Eval vm_compute in ("<<<M1078>>>" ++ check (runes_of_ascii "// a
+MetaData M {} // b
 // c
-// " ++ [128512]%N ++ runes_of_ascii " emoji
-{
-    } // c")).
-Eval vm_compute in ("<<<M1434>>>" ++ check (runes_of_ascii "options {
-a
-=""\
-""  ;
-	b = ""\
-""
-}
+MetaData N {} // d
+// e")).
+Eval vm_compute in ("<<<M777>>>" ++ check (runes_of_ascii "packet A { Inner { match k as n { [1] : B, }, }, }")).
+Eval vm_compute in ("<<<M1554>>>" ++ check (runes_of_ascii "options {
+    a = ""\
+    "";
+    b = ""\
+    ""
+}")).
+Eval vm_compute in ("<<<M933>>>" ++ check (runes_of_ascii "MetaData M {
+    u8 x `
+`,
+    T t `
+`,
+}")).
+Eval vm_compute in ("<<<M1669>>>" ++ check (runes_of_ascii "options
+{ Foo
+=
+0123456789
+	;
+	}
 ")).
-Eval vm_compute in ("<<<M1517>>>" ++ check (runes_of_ascii "root
-	packet A{  u8
-	x	`
-`
-,
-}
-
+Eval vm_compute in ("<<<M1574>>>" ++ check (runes_of_ascii "packet A {
+    u8 x `d" ++ [6158]%N ++ runes_of_ascii "`,// c" ++ [6158]%N ++ runes_of_ascii "
+}")).
+Eval vm_compute in ("<<<M1048>>>" ++ check (runes_of_ascii "packet A {
+ u8 x `d" ++ [8203]%N ++ runes_of_ascii "`, // c" ++ [8203]%N ++ runes_of_ascii "
+}")).
+Eval vm_compute in ("<<<M929>>>" ++ check (runes_of_ascii "packet A {
+    u8 x `
+`,
+}")).
+Eval vm_compute in ("<<<M51>>>" ++ check (runes_of_ascii "options {} // " ++ [128512]%N ++ runes_of_ascii " emoji")).
+Eval vm_compute in ("<<<M162>>>" ++ check (runes_of_ascii "
+packet f32a  { }
 ")).
-Eval vm_compute in ("<<<M1028>>>" ++ check (runes_of_ascii "packet A {
- u8 x `d" ++ [8287]%N ++ runes_of_ascii "`, // c" ++ [8287]%N ++ runes_of_ascii "
-}")).
-Eval vm_compute in ("<<<M1796>>>" ++ check (runes_of_ascii "
-packet
-	A
-{ u8 x `x
-`  , }")).
-Eval vm_compute in ("<<<M1727>>>" ++ check (runes_of_ascii "root packet falsey {
-}")).
-Eval vm_compute in ("<<<M1532>>>" ++ check (runes_of_ascii "packet MetaDataX {
-}")).
-Eval vm_compute in ("<<<M987>>>" ++ check (runes_of_ascii "// c" ++ [160]%N ++ runes_of_ascii "
-packet A {
-}")).
-Eval vm_compute in ("<<<M1232>>>" ++ check (runes_of_ascii "packet x { } // c
-")).
-Eval vm_compute in ("<<<M1602>>>" ++ check (runes_of_ascii "packet x {
+Eval vm_compute in ("<<<M1001>>>" ++ check (runes_of_ascii "packet A {
 }
-// c")).
-Eval vm_compute in ("<<<M255>>>" ++ check (runes_of_ascii " /// triple")).
-Eval vm_compute in ("<<<M1045>>>" ++ check (runes_of_ascii "// c" ++ [8203]%N)).
+// c" ++ [8192]%N)).
+Eval vm_compute in ("<<<M277>>>" ++ check (runes_of_ascii "MetaData i64_ { }")).
+Eval vm_compute in ("<<<M310>>>" ++ check (runes_of_ascii "
+MetaData A {}
+")).
+Eval vm_compute in ("<<<M241>>>" ++ check (runes_of_ascii "/// triple
+")).
+Eval vm_compute in ("<<<M1035>>>" ++ check (runes_of_ascii "// c" ++ [12]%N)).
